@@ -143,6 +143,7 @@ func runC07(p *Prog, r *Report) {
 	r.Floor("E6", "limit-receiving parameters", len(lims), 25)
 	type use struct{ compares, limitedReader, forwards, returnsTooLarge bool }
 	norder := 0
+	ninv := 0
 	var keys []limParam
 	for k := range lims {
 		keys = append(keys, k)
@@ -206,6 +207,38 @@ func runC07(p *Prog, r *Report) {
 			}
 		}
 		name := fmt.Sprintf("%s(%s)", funcName(k.fn), k.fn.Params[k.idx].Name())
+		// R-inv: "is a limit configured at all" (a comparison with 0, the 'unlimited' sentinel) is asked of the limit
+		// itself, not of a running remainder that is updated inside a loop - a remainder that reaches 0 would read
+		// as 'unlimited' from then on.
+		for _, cc := range cmpConds {
+			bo, ok := cc.(*ssa.BinOp)
+			if !ok {
+				continue
+			}
+			for _, pair := range [][2]ssa.Value{{bo.X, bo.Y}, {bo.Y, bo.X}} {
+				kk, isK := constInt(pair[1])
+				if !isK || kk != 0 || !derivesFromParam(pair[0], prm) {
+					continue
+				}
+				v := pair[0]
+				for {
+					if cv, ok := v.(*ssa.Convert); ok {
+						v = cv.X
+						continue
+					}
+					break
+				}
+				carried := false
+				if ph, ok := v.(*ssa.Phi); ok {
+					if h := loopHeaderOf(ph.Block()); h != nil && h == ph.Block() {
+						carried = true
+					}
+				}
+				ninv++
+				r.Check("R-inv", fmt.Sprintf("%s: the 'unlimited' test compares the limit itself with 0, not a value updated in a loop", name), !carried, p.Pos(bo.Pos()),
+					"the value compared with 0 is a running remainder of the limit carried around a loop: when the data read so far adds up to exactly the limit it becomes 0, which means 'no limit', and everything after that is buffered")
+			}
+		}
 		r.Check("E6", name+": the limit it receives is compared, turned into a limited reader, or forwarded", u.compares || u.limitedReader || u.forwards, p.Pos(k.fn.Pos()),
 			"the function receives a size limit and neither tests it nor passes it on: whatever it reads or grows is unbounded")
 		returnsErr := false
@@ -315,6 +348,7 @@ func runC07(p *Prog, r *Report) {
 		}
 	}
 	r.Floor("R-order", "buffering reads in limit-rejecting functions that do not receive the limit themselves", norder, 1)
+	r.Floor("R-inv", "comparisons of a limit with the 'unlimited' sentinel 0", ninv, 5)
 
 	// ---- R-default ----
 	res := p.serveLoop("C07")
